@@ -137,6 +137,7 @@ func RunC16(s *kernel.Sim) *World {
 				if r := recover(); r != nil {
 					c.panicked = r
 				}
+				w.Gate()
 				c.retT = s.Now()
 				c.done = true
 				w.Tracef("caller %d returned err=%v panic=%v", c.id, c.err, c.panicked)
@@ -360,7 +361,8 @@ func RunC16(s *kernel.Sim) *World {
 		}
 	}
 	// (single-flight) and (no automatic retry)
-	for n, rs := range lookupReqs {
+	for _, n := range SortedKeys(lookupReqs) {
+		rs := lookupReqs[n]
 		if known[n] {
 			w.Fail("requests", "declared secret %q was fetched again by a lookup", n)
 		}
@@ -417,7 +419,8 @@ func RunC16(s *kernel.Sim) *World {
 	}
 	// (afterwards) the secret is polled and cached like any other
 	var looked []string
-	for n, rs := range lookupReqs {
+	for _, n := range SortedKeys(lookupReqs) {
+		rs := lookupReqs[n]
 		for _, r := range rs {
 			if r.Served != 0 {
 				looked = append(looked, n)
@@ -435,7 +438,7 @@ func RunC16(s *kernel.Sim) *World {
 		var rerr error
 		rdone := false
 		ctx, _ := w.Ctx(0)
-		w.Spawn("refresh", func(*kernel.Task) { rerr = st.Refresh(ctx); rdone = true })
+		w.Spawn("refresh", func(*kernel.Task) { rerr = st.Refresh(ctx); w.Gate(); rdone = true })
 		for i := 0; i < 500 && !rdone; i++ {
 			_, en := s.Tickets()
 			if len(en) == 0 {
